@@ -518,6 +518,26 @@ def run(tier, seed, replay=None):
     if tracer is not None:
         tracer.__exit__(None, None, None)
     t_tr = time.time() - t0
+    # (b2) resources that must last a whole session: the identifier pool.  hephaestus resets it before every batch; after any
+    # number of reset / draw cycles a reset must give the full pool again (the driver runs for hours in one process)
+    pool_problems = []
+    try:
+        progs.generate_setup("kotlin", 1)
+        full = len(utils.random.WORDS)
+        init0 = len(utils.random.INITIAL_WORDS)
+        for cyc in range(400):
+            utils.random.reset_word_pool()
+            if len(utils.random.WORDS) != full or len(utils.random.INITIAL_WORDS) != init0:
+                pool_problems.append("after %d cycles of reset_word_pool + 60 draws the pool has %d words (initial words: %d), a fresh one has %d (%d)"
+                                     % (cyc, len(utils.random.WORDS), len(utils.random.INITIAL_WORDS), full, init0))
+                break
+            for _ in range(60):
+                utils.random.word()
+    except Exception as e:      # noqa: BLE001
+        pool_problems.append("the identifier pool failed after some reset / draw cycles: %s: %s" % (type(e).__name__, str(e)[:100]))
+    for msg in pool_problems:
+        rep.violation("word-pool", msg, dict(what=msg, shape="word-pool-exhausted"))
+    rep.add(word_pool_cycles=400, word_pool_problems=len(pool_problems))
     # (c) command-line stream: sessions of the real driver code (hephaestus.gen_program per program, batches of 10 with
     # reset_word_pool, every option through src/args.py) in separate processes, long enough to exhaust per-process resources
     import subprocess as _sp
@@ -525,28 +545,50 @@ def run(tier, seed, replay=None):
     import sys as _sys
     import json as _json
     if tier == "quick":
-        plan = [("java", 125, ["--max-type-params", "1"]), ("kotlin", 125, ["--max-type-params", "2"]),
-                ("groovy", 60, ["--max-type-params", "1"]), ("scala", 60, ["--max-type-params", "2"]),
-                ("java", 60, ["--max-type-params", "2", "--max-depth", "4"]), ("kotlin", 60, ["--max-type-params", "1", "--max-depth", "3"]),
-                ("groovy", 60, ["--max-type-params", "2", "--disable-use-site-variance"]),
-                ("scala", 60, ["--max-type-params", "1", "--disable-bounded-type-parameters"])]
+        plan = [("java", 125, ["--max-type-params", "1"]), ("kotlin", 60, ["--max-type-params", "2"]),
+                ("groovy", 40, ["--max-type-params", "1"]), ("scala", 40, ["--max-type-params", "2"]),
+                ("java", 60, ["--max-type-params", "2", "--max-depth", "4"]), ("kotlin", 40, ["--max-type-params", "1", "--max-depth", "3"]),
+                ("groovy", 30, ["--max-type-params", "2", "--disable-use-site-variance"]),
+                ("scala", 30, ["--max-type-params", "1", "--disable-bounded-type-parameters"])]
     else:
         plan = [(l, 150, ["--max-type-params", str(m)] + x) for l in T.LANGS for m in (1, 2, 5)
                 for x in ([], ["--max-depth", "3"], ["--disable-parameterized-functions", "--disable-use-site-variance"])]
     env = dict(os.environ, PYTHONPATH=C.REPO + os.pathsep + os.path.join(C.VERIF, "harness"), PYTHONHASHSEED="0")
 
-    def cli(job):
-        k, (lang, n, flags) = job
-        sd = C.sub_seed(seed, "c18cli", k) % 100000
+    def cli_once(lang, n, flags, sd):
         cmd = [_sys.executable, os.path.join(C.VERIF, "harness", "c18_cli.py"), lang, str(n), str(sd)] + flags
         try:
             pr = _sp.run(cmd, env=env, stdout=_sp.PIPE, stderr=_sp.STDOUT, text=True, timeout=45 * n + 600, cwd=tempfile.gettempdir())
         except _sp.TimeoutExpired:
-            return lang, n, flags, sd, None, "did not finish within %d s" % (60 * n + 600)
+            return None, "did not finish within %d s" % (45 * n + 600)
         for line in pr.stdout.splitlines():
             if line.startswith("C18CLI "):
-                return lang, n, flags, sd, _json.loads(line[7:]), None
-        return lang, n, flags, sd, None, "session died: " + pr.stdout[-800:]
+                return _json.loads(line[7:]), None
+        return None, "session died: " + pr.stdout[-800:]
+
+    def cli(job):
+        """One planned session; a session that a slow program ended early is continued by a NEW process (fresh state) for the
+        programs that are left, at most three times.  The first session is the one that can reach the planned length."""
+        k, (lang, n, flags) = job
+        sd = C.sub_seed(seed, "c18cli", k) % 100000
+        total = dict(programs=0, failures=[], over_limit=[])
+        left, sdi, first_err = n, sd, None
+        for attempt in range(4):
+            out_, err_ = cli_once(lang, left, flags, sdi)
+            if out_ is None:
+                first_err = err_
+                break
+            total["programs"] += out_["programs"]
+            for f_ in out_["failures"]:
+                total["failures"].append(dict(f_, session_seed=sdi, session_length=left))
+            total["over_limit"] += out_.get("over_limit", [])
+            left -= out_["programs"]
+            if left <= 0 or not out_.get("over_limit"):
+                break
+            sdi = (sdi * 7 + 13 + attempt) % 100000
+        if first_err is not None and total["programs"] == 0:
+            return lang, n, flags, sd, None, first_err
+        return lang, n, flags, sd, total, None
     t1 = time.time()
     cli_programs, cli_fail, cli_hist, cli_slow = 0, 0, {}, 0
     with _cf.ThreadPoolExecutor(max_workers=min(8, C.NPROC)) as ex:
@@ -565,8 +607,10 @@ def run(tier, seed, replay=None):
                 last = [l_ for l_ in f_["error"].splitlines() if l_.strip()][-1:] or [""]
                 rep.violation(exc_shape(f_["error"]), "%s with %s: program %d of the session (seed %d) made the tool fail: %s"
                               % (lang, " ".join(flags), f_["pid"], sd, last[0][:200]),
-                              dict(lang=lang, flags=flags, session_seed=sd, pid=f_["pid"], error=f_["error"], shape=exc_shape(f_["error"]),
-                                   replay="harness/c18_cli.py %s %d %d %s" % (lang, n, sd, " ".join(flags))))
+                              dict(lang=lang, flags=flags, session_seed=f_.get("session_seed", sd), pid=f_["pid"], error=f_["error"],
+                                   shape=exc_shape(f_["error"]),
+                                   replay="harness/c18_cli.py %s %d %d %s" % (lang, f_.get("session_length", n), f_.get("session_seed", sd),
+                                                                               " ".join(flags))))
     t_cli = time.time() - t1
     if scheme_err is not None:
         rep.violation("scheme-extract", "harness/gen2coq.py on src/generators/generator.py: %s" % scheme_err,
